@@ -66,40 +66,52 @@ def clause_ab(facts, rep):
         return None
     fd = fd[0]
     rep.fn(fd)
-    k_mul = k_sub = k_sh = h_mul = h_sh = None
+    # the decimal exponent k and the binary shift h are bound from their uses (the argument of Pow10CeilSig(-k), the
+    # shift amount of the RoundToOdd operands) and the code that computes them is *evaluated* (sv/minterp.py) for
+    # every binary exponent q a double can have, for a regular and an irregular (exact power of two) significand
+    from ..minterp import Interp, Unsupported
+    kid = hid = None
     for bid, i, st, e in fd.walk():
-        if e.get('k') == 'bin' and e['op'] == '>>' and cval(e['r']) is not None:
-            l = strip(e['l'])
-            consts = [cval(x) for x in walk(l) if x.get('k') in ('lit',) or (x.get('k') == 'cast' and cval(x) is not None)]
-            consts = [c for c in consts if c is not None and c > 1000]
-            names = [x.get('name') for x in walk(l) if x.get('k') == 'ref']
-            if 'q' in names and consts and k_mul is None and cval(e['r']) >= 20:
-                k_sh = cval(e['r'])
-                k_mul = max(consts)
-                k_sub = min(consts) if len(set(consts)) > 1 else 0
-            elif 'k' in names and consts and cval(e['r']) >= 16:
-                h_sh = cval(e['r'])
-                h_mul = max(consts)
-    rep.require(None not in (k_mul, k_sh, h_mul, h_sh), 'C07.b: log-approximation constants not bound: %s' % ((k_mul, k_sub, k_sh, h_mul, h_sh),))
-    if None in (k_mul, k_sh, h_mul, h_sh):
+        if e.get('k') == 'call' and e.get('cname') == 'Pow10CeilSig' and e.get('args'):
+            a = strip(e['args'][0])
+            if a is not None and a.get('k') == 'un' and a['op'] == '-' and strip(a['e']).get('k') == 'ref':
+                kid = strip(a['e'])['id']
+        if e.get('k') == 'call' and e.get('cname') == 'RoundToOdd' and len(e.get('args', [])) >= 2:
+            a = strip(e['args'][1])
+            if a is not None and a.get('k') == 'bin' and a['op'] == '<<' and strip(a['r']).get('k') == 'ref':
+                hid = strip(a['r'])['id']
+    rep.require(kid is not None and hid is not None, 'C07.b: decimal exponent / shift variables of F64ToDecimal not bound')
+    if kid is None or hid is None:
         return None
+    ps = {p['name']: p['id'] for p in fd.params}
+    rep.require(all(x in ps for x in ('rsig', 'rexp', 'c', 'q')), 'C07.b: parameters of F64ToDecimal not bound')
+    stop = lambda b, i, st: any(x.get('k') == 'call' and x.get('cname') == 'Pow10CeilSig' for x in walk(st))
     qs = range(-1074, 972)
     bad = []
+    bad2 = []
     ks = set()
-    for q in qs:
-        kr = (q * k_mul) >> k_sh
-        ki = (q * k_mul - k_sub) >> k_sh
-        if kr != floor_log10_pow2(q):
-            bad.append(('regular', q, kr, floor_log10_pow2(q)))
-        if ki != floor_log10_pow2(q, 3, 4):
-            bad.append(('irregular', q, ki, floor_log10_pow2(q, 3, 4)))
-        ks.add(kr)
-        ks.add(ki)
-    rep.check(not bad, 'E5.log-approx', fd.qn, '(q*%d - {0,%d}) >> %d == floor(log10({1,3/4} * 2^q)) for q in [-1074, 971]' % (k_mul, k_sub, k_sh), fd.loc,
-              'first mismatch %s' % (bad[:1],), facts.config)
-    bad2 = [(k, ((-k) * h_mul) >> h_sh, floor_log2_pow10(-k)) for k in sorted(ks) if ((-k) * h_mul) >> h_sh != floor_log2_pow10(-k)]
-    rep.check(not bad2, 'E5.log-approx', fd.qn, '((-k)*%d) >> %d == floor(log2(10^-k)) for every k produced (%d values)' % (h_mul, h_sh, len(ks)), fd.loc,
-              'first mismatch %s' % (bad2[:1],), facts.config)
+    it = Interp(fd, facts)
+    try:
+        for q in qs:
+            for irregular in (0, 1):
+                env = {ps['q']: q, ps['c']: 1 << 52, ps['rsig']: 0 if irregular else 1, ps['rexp']: 2}
+                _, env2, _, reached = it.run(env, {}, stop_at=stop)
+                if not reached or kid not in env2 or hid not in env2:
+                    raise Unsupported('k / h not computed before the table lookup')
+                k, h = env2[kid], env2[hid]
+                want = floor_log10_pow2(q, 3, 4) if irregular else floor_log10_pow2(q)
+                if k != want:
+                    bad.append(('irregular' if irregular else 'regular', q, k, want))
+                ks.add(k)
+                wh = q + floor_log2_pow10(-k) + 1
+                if h != wh:
+                    bad2.append((q, k, h, wh))
+    except Unsupported as ex:
+        raise AnalysisBroken('C07.b: exponent computation of F64ToDecimal not evaluable: %s' % ex)
+    rep.check(not bad, 'E5.log-approx', fd.qn, 'k == floor(log10({1,3/4} * 2^q)) for q in [-1074, 971], regular and irregular significands (evaluated from the source expression)', fd.loc,
+              'first mismatch (kind, q, k, expected) %s' % (bad[:1],), facts.config)
+    rep.check(not bad2, 'E5.log-approx', fd.qn, 'h == q + floor(log2(10^-k)) + 1 for every (q, k) produced (%d values of k)' % len(ks), fd.loc,
+              'first mismatch (q, k, h, expected) %s' % (bad2[:1],), facts.config)
     # (c) index range: closed form over the exhaustive k set, plus the interval analysis of the subscript
     lo, hi = min(-k for k in ks), max(-k for k in ks)
     rep.check(lo - kmin >= 0 and hi - kmin < len(rows), 'E5.table-range', f.qn, 'every -k in [%d, %d] indexes g[0..%d)' % (lo, hi, len(rows)), f.loc,
